@@ -52,13 +52,24 @@ def evaluate(mod, lines, wd, tag, env=None):
             except Exception as ex:
                 spec.append("FAIL oracle exception: %r" % (ex,))
         return impl, model, spec
-    model = run_sharded(DRIVER_BIN, lines, wd, tag + "-model", timeout=mod_timeout(mod), per_shard=getattr(mod, "PER_SHARD", 64))
+    # cases with one of these prefixes are lock-step cases: the implementation runs first, the model then replays
+    # the labels recorded from it (mod.model_line_after); all others are run by the model on the case line itself
+    after = tuple(getattr(mod, "AFTER_PREFIXES", ()))
+    is_after = [bool(after) and c.startswith(after) for c in lines]
+    model = run_sharded(DRIVER_BIN, ["#" if a else c for c, a in zip(lines, is_after)], wd, tag + "-model",
+                        timeout=mod_timeout(mod), per_shard=getattr(mod, "PER_SHARD", 64))
     # the model may tell the harness how many response bytes to wait for (never what they are)
     if hasattr(mod, "hint"):
-        impl_lines = [mod.hint(c, m) for c, m in zip(lines, model)]
+        impl_lines = [c if a else mod.hint(c, m) for c, m, a in zip(lines, model, is_after)]
     else:
         impl_lines = lines
     impl = run_impl(mod, impl_lines, wd, tag, e)
+    if any(is_after):
+        idx = [i for i, a in enumerate(is_after) if a]
+        m2 = run_sharded(DRIVER_BIN, [mod.model_line_after(lines[i], impl[i]) for i in idx], wd, tag + "-model-after",
+                         timeout=mod_timeout(mod))
+        for i, x in zip(idx, m2):
+            model[i] = x
     if hasattr(mod, "oracle"):
         spec = []
         for c, o in zip(lines, impl):
@@ -176,7 +187,9 @@ def run_property(mod, tier, seed, replay=None):
             elif getattr(mod, "ORACLE_ON_SKIP", False) and sp.startswith("FAIL"):
                 failures.append((i, sp))
             continue
-        if hasattr(mod, "agree"):
+        if getattr(mod, "AFTER_PREFIXES", ()) and c.startswith(tuple(mod.AFTER_PREFIXES)):
+            differs = not mod.agree_after(im, mo)
+        elif hasattr(mod, "agree"):
             differs = not mod.agree(im, mo)
         else:
             differs = mod.project(im) != mod.project(mo)
